@@ -131,7 +131,7 @@ def ser_stream(st, transform=None):
 class Revision:
     def __init__(self, objects, form="table", objstm=(), free=(), eol=b"\n", root=None, info=None,
                  trailer_extra=None, gens=None, xref_w=(1, 4, 2), split_index=False, objstm_id=None, xref_id=None,
-                 pad_before=b""):
+                 pad_before=b"", omit_index=False):
         self.objects = dict(objects)          # objid -> value
         self.form = form                      # 'table' | 'stream' | 'hybrid'
         self.objstm = list(objstm)            # objids stored in this revision's object stream (not for 'table')
@@ -146,6 +146,7 @@ class Revision:
         self.objstm_id = objstm_id
         self.xref_id = xref_id
         self.pad_before = pad_before
+        self.omit_index = omit_index          # xref stream: leave /Index out when it equals the default [0 Size]
 
 
 def _runs(ids):
@@ -245,6 +246,8 @@ def build(revisions, header=b"%PDF-1.7\n%\xe2\xe3\xcf\xd3\n", transform_for=None
                 rows += a.to_bytes(w[1], "big") + b.to_bytes(w[2], "big")
             d = {"Type": Name("XRef"), "Size": max(maxid, xid) + 1, "W": list(w),
                  "Index": [x for r in runs for x in r], "Filter": Name("FlateDecode")}
+            if rev.omit_index and d["Index"] == [0, d["Size"]]:
+                del d["Index"]
             d.update(extra)
             st = Stream(d, zlib.compress(bytes(rows)))
             out.extend(b"%d 0 obj" % xid + E + ser(st) + E + b"endobj" + E)
